@@ -2278,6 +2278,8 @@ class Engine:
             st.trace.append(('call', short, tuple(args)))
             return [(st, self.fresh_val(kind, short) if kind != 'none' else NONE)]
         if callable(policy):
+            # abstracted by the contract (ghost event / model written in the contract file): reported
+            self.opaque_calls.add(qual + ' (contract-defined model)')
             return policy(self, selfv, args, kwargs, st, node)
         if c is None and policy is None and qual.split('::')[0] == self.contract.file \
                 and self.inline_depth < 6:
